@@ -6,11 +6,31 @@ COQ_DEPS = ["C11"]
 PROFILES = ["debug"]
 CORR_IMPORT = "From RlibV Require Import C11.Model C07.Model C07.Corr.\nOpen Scope Z_scope."
 AUDIT_IMPORT = ("From Coq Require Import ZArith QArith Qround List.\n"
-                "From RlibV Require Import C11.Model C07.Model C07.Corr C07.Properties.\nOpen Scope Z_scope.")
+                "From RlibV Require Import C11.Model C07.Model C07.Spec C07.Trace C07.Corr C07.Scope C07.Properties.\nOpen Scope Z_scope.")
 EXPLAIN = "explain"
 AXIOM_ALLOW = []
 SHARD = 5000
 THEOREMS = [
+    ("c07_new_canonical", "forall a b : Z, b <> 0 -> Z.abs b < 2 ^ 130 -> exists r, new a b = Some r /\\ canonical r /\\ (to_Q r == frac a b)%Q"),
+    ("c07_new_int", "forall a : Z, canonical (new_int a) /\\ (to_Q (new_int a) == inject_Z a)%Q"),
+    ("c07_add_exact", "forall x y : rat, 0 < rb x -> 0 < rb y -> small x -> small y -> exists r, add x y = Some r /\\ canonical r /\\ (to_Q r == to_Q x + to_Q y)%Q"),
+    ("c07_sub_exact", "forall x y : rat, 0 < rb x -> 0 < rb y -> small x -> small y -> exists r, sub x y = Some r /\\ canonical r /\\ (to_Q r == to_Q x - to_Q y)%Q"),
+    ("c07_mul_exact", "forall x y : rat, 0 < rb x -> 0 < rb y -> small x -> small y -> exists r, mul x y = Some r /\\ canonical r /\\ (to_Q r == to_Q x * to_Q y)%Q"),
+    ("c07_div_exact", "forall x y : rat, 0 < rb x -> 0 < rb y -> small x -> small y -> ra y <> 0 -> exists r, div x y = Some r /\\ canonical r /\\ (to_Q r == to_Q x / to_Q y)%Q"),
+    ("c07_neg", "forall x : rat, canonical x -> canonical (neg x) /\\ (to_Q (neg x) == - to_Q x)%Q"),
+    ("c07_canonical_eq", "forall x y : rat, canonical x -> canonical y -> (to_Q x == to_Q y)%Q -> x = y"),
+    ("c07_eq_numeric", "forall x y : rat, canonical x -> canonical y -> (eqb x y = true <-> (to_Q x == to_Q y)%Q)"),
+    ("c07_cmp", "forall x y : rat, 0 < rb x -> 0 < rb y -> small x -> small y -> cmp x y = Some (to_Q x ?= to_Q y)%Q"),
+    ("c07_cmp_eq", "forall x y : rat, canonical x -> canonical y -> small x -> small y -> (cmp x y = Some Eq <-> x = y)"),
+    ("c07_floor", "forall x : rat, 0 < rb x -> floor x = Some (Rat (Qfloor (to_Q x)) 1)"),
+    ("c07_ceil", "forall x : rat, 0 < rb x -> ceil x = Some (Rat (Qceiling (to_Q x)) 1)"),
+    ("c07_trace_same", "forall (x y : rat) (a b : Z), fst (new_t a b) = new a b /\\ fst (add_t x y) = add x y /\\ fst (sub_t x y) = sub x y /\\ fst (mul_t x y) = mul x y /\\ fst (div_t x y) = div x y /\\ fst (neg_t x) = neg x /\\ fst (cmp_t x y) = cmp x y /\\ fst (floor_t x) = floor x /\\ fst (ceil_t x) = ceil x"),
+    ("c07_fits_2_30", "forall (x y : rat) (a b : Z), within (2 ^ 30) x -> within (2 ^ 30) y -> Z.abs a <= 2 ^ 30 -> Z.abs b <= 2 ^ 30 -> all_below (2 ^ 62) (snd (new_t a b)) /\\ all_below (2 ^ 62) (snd (add_t x y)) /\\ all_below (2 ^ 62) (snd (sub_t x y)) /\\ all_below (2 ^ 62) (snd (mul_t x y)) /\\ all_below (2 ^ 62) (snd (div_t x y)) /\\ all_below (2 ^ 62) (snd (neg_t x)) /\\ all_below (2 ^ 62) (snd (cmp_t x y)) /\\ all_below (2 ^ 62) (snd (floor_t x)) /\\ all_below (2 ^ 62) (snd (ceil_t x))"),
+    ("c07_fits_i32_2_14", "forall (x y : rat) (a b : Z), within (2 ^ 14) x -> within (2 ^ 14) y -> Z.abs a <= 2 ^ 14 -> Z.abs b <= 2 ^ 14 -> all_below (2 ^ 30) (snd (new_t a b)) /\\ all_below (2 ^ 30) (snd (add_t x y)) /\\ all_below (2 ^ 30) (snd (sub_t x y)) /\\ all_below (2 ^ 30) (snd (mul_t x y)) /\\ all_below (2 ^ 30) (snd (div_t x y)) /\\ all_below (2 ^ 30) (snd (neg_t x)) /\\ all_below (2 ^ 30) (snd (cmp_t x y)) /\\ all_below (2 ^ 30) (snd (floor_t x)) /\\ all_below (2 ^ 30) (snd (ceil_t x))"),
+    ("c07_fits_general", "forall (M : Z) (x y : rat) (a b : Z), 1 <= M -> 2 * (M * M) < 2 ^ 130 -> within M x -> within M y -> Z.abs a <= M -> Z.abs b <= M -> let le B := Forall (fun v => Z.abs v <= B) in le M (snd (new_t a b)) /\\ le (2 * (M * M)) (snd (add_t x y)) /\\ le (2 * (M * M)) (snd (sub_t x y)) /\\ le (2 * (M * M)) (snd (mul_t x y)) /\\ le (2 * (M * M)) (snd (div_t x y)) /\\ le M (snd (neg_t x)) /\\ le (2 * (M * M)) (snd (cmp_t x y)) /\\ le (2 * M + 1) (snd (floor_t x)) /\\ le (2 * M + 1) (snd (ceil_t x))"),
+    ("c07_model_implies_spec", "forall c : case, in_scope c -> model_check c = true -> spec_check c = true"),
+    ("c07_floor_greatest", "forall x : rat, 0 < rb x -> exists n, floor x = Some (Rat n 1) /\\ (inject_Z n <= to_Q x)%Q /\\ (to_Q x < inject_Z (n + 1))%Q"),
+    ("c07_ceil_least", "forall x : rat, 0 < rb x -> exists n, ceil x = Some (Rat n 1) /\\ (inject_Z (n - 1) < to_Q x)%Q /\\ (to_Q x <= inject_Z n)%Q"),
 ]
 RULE = ("x = Rational::new(a,b), y = Rational::new(c,d); unary ops (new, neg, floor, ceil, Display) exhaustively for |a|,|b| <= 6 "
         "(both denominator signs), binary ops (add, sub, mul, div, cmp, ==/hash) exhaustively for |.| <= 3 (quick) / 6 (thorough) "
@@ -255,7 +275,7 @@ MANIFEST = {
             "division and C11's verified gcd model: constructor and operator results are canonical (positive denominator, lowest "
             "terms) and equal the exact rational value in Q; canonical forms are unique, so derived ==/Hash agree with numeric "
             "equality; cmp is the order of Q; floor/ceil are Qfloor/Qceiling for both signs; for |.| <= 2^30 no intermediate "
-            "reaches 2^62. The model is tied to the code on every run: the executor drives Rational<i32|i64|i128> from /repo "
+            "reaches 2^62; model_check -> spec_check is proved for inputs below 2^32. The model is tied to the code on every run: the executor drives Rational<i32|i64|i128> from /repo "
             "through every operator form on exhaustive small boxes plus boundary-biased samples and Coq proves "
             "model = implementation and implementation |= spec (exact cross-multiplication) on every case.",
     "level_note": "Trusted: Coq kernel + vm_compute; the Rust executor and the Python case printer; integers are unbounded Z "
